@@ -417,4 +417,20 @@ def r5_reparse_sites(ctx, rid: str = "C05.R5", placeholders: bool = False) -> No
                         r.violation(rid, mf.qual, short(c, 80), "text cut out of a string part is handed to the parser again: parts hold the already unescaped characters, so a literal '\\*' inside the slice becomes a wildcard and two backslashes collapse into one", loc)
                     else:
                         r.ok(rid, mf.qual, f"{short(c, 60)}: constructor argument is not part text", loc)
+        # the same through the callback interface: map_parts(func, filter, interpret_special=True) parses whatever func returns
+        # for a part — if func derives its result from the part (it always does: it gets nothing else), the untouched
+        # characters of the part are parsed a second time
+        n_mp = 0
+        for q, f in sorted(prog.funcs.items()):
+            if not f.module.name.startswith("sigma.") or q.endswith("SigmaString.map_parts") or q.endswith("SigmaString.map_str_parts"):
+                continue
+            for c in (x for x in walk_no_nested(f.node) if isinstance(x, ast.Call) and isinstance(x.func, ast.Attribute) and x.func.attr == "map_parts"):
+                n_mp += 1
+                flag = c.args[2] if len(c.args) > 2 else next((k.value for k in c.keywords if k.arg == "interpret_special"), None)
+                loc = f"{f.module.relpath}:{c.lineno}"
+                if flag is None or (isinstance(flag, ast.Constant) and flag.value is False):
+                    r.ok(rid, q, f"{short(c, 50)}: results of the callback are stored as plain text", loc)
+                else:
+                    r.violation(rid, q, short(c, 120), f"map_parts(..., interpret_special={unparse(flag)}) parses the callback's whole result for a part: the characters of the part the callback did not touch are interpreted a second time ('50\\* off' → wildcard, '\\\\srv' loses a backslash) — even if nothing was replaced", loc)
+        r.analysed["C05.map_parts_call_sites"] = n_mp
     r.floor(rid, 2)
